@@ -2099,6 +2099,6 @@ def bind_contract_args(run, fs, fdef, mod, args, kwargs):
             out[p] = run.make_list(v.items, t.e)
         elif isinstance(v, PyEmptyDict) and isinstance(t, TDict):
             out[p] = SDict(t, t.empty())
-        elif v is NONE and t is TVal:
-            out[p] = SVal(pack(NONE, TVal))
+        elif t is TVal and isinstance(v, SV) and not isinstance(v, SVal):
+            out[p] = SVal(pack(v, TVal))
     return out
